@@ -91,6 +91,7 @@ func init() {
 				{Scenario: "c11_burst", Params: mustJSON(BurstParams{Membership: "static", MaxN: 1, HoldWait: true}), Bound: 0, Shards: 2},
 				{Scenario: "c11_burst", Params: mustJSON(BurstParams{Membership: "dynamic", MaxN: 1, YieldLog: true}), Bound: 1, Shards: 8, Note: "log calls are scheduling points; immediate re-open (dynamic membership): the re-open thread against the tail of the Rebalance() call that armed it, all single deviations (bracketing of the lifecycle callbacks)"},
 				{Scenario: "c11_burst", Params: mustJSON(BurstParams{Membership: "static", MaxN: 2, Tight: true}), Bound: 1, Shards: 8, Note: "two notifications at the same instant (bus + GET /rebalance), all single deviations"},
+				{Scenario: "c12_afterrebalance", Params: mustJSON(AfterRebParams{ReopenPending: true}), Bound: 0, Shards: 4, Note: "a re-open retry of an earlier transient end sleeps through the whole (immediate) rebalance: every vBucket is open exactly once afterwards, the client runs on"},
 				{Scenario: "c12_afterrebalance", Params: mustJSON(AfterRebParams{OldServer: true}), Bound: 0, Shards: 4, Note: "two rebalances in a row against a server below 5.5.0 (serial close): the second one completes"},
 				{Scenario: "c12_afterrebalance", Params: mustJSON(AfterRebParams{CloseFault: true}), Bound: 0, Shards: 8, Note: "a close-stream request of the rebalance fails (lost reply / dead connection with a transient stream end): the rebalance does not terminate the client"},
 				{Scenario: "c02_sessions", Params: mustJSON(SessionsParams{ReadOnly: true}), Bound: 0, Shards: 2, Note: "re-open after a rebalance resumes from the checkpoints stored NOW (read-only mode: they were advanced by their owners since the process started), for vBuckets that stay in the range and for gained ones"},
